@@ -361,3 +361,156 @@ Proof.
   - change (Z.of_N (64 * 128 ^ N.of_nat (19 - 1))) with (64 * 128 ^ 18)%Z.
     assert (2 ^ 63 < 64 * 128 ^ 18)%Z by (vm_compute; reflexivity). lia.
 Qed.
+
+(* ------------------------------------------------------------------ reader algebra *)
+Lemma nlen_app : forall a b, nlen (a ++ b) = nlen a + nlen b.
+Proof. intros. unfold nlen. rewrite app_length. lia. Qed.
+
+Lemma nlen_cons : forall x l, nlen (x :: l) = 1 + nlen l.
+Proof. intros. unfold nlen. cbn [length]. lia. Qed.
+
+Lemma nlen_blen : forall l, nlen l = blen l.
+Proof. reflexivity. Qed.
+
+Lemma lift_app : forall A (f : list byte -> res (A * list byte)) o e rest a,
+  f (e ++ rest) = Ok (a, rest) -> lift f (mkrd o (e ++ rest)) = Ok (a, mkrd (o + nlen e) rest).
+Proof.
+  intros A f o e rest a H. unfold lift. cbn [win off]. rewrite H. cbn [bind].
+  rewrite nlen_app. do 2 f_equal. f_equal. lia.
+Qed.
+
+Lemma lift_err : forall A (f : list byte -> res (A * list byte)) o w e,
+  f w = Err e -> lift f (mkrd o w) = Err e.
+Proof. intros A f o w e H. unfold lift. cbn [win]. rewrite H. reflexivity. Qed.
+
+Lemma firstn_nlen_app : forall (e rest : list byte), firstn (N.to_nat (nlen e)) (e ++ rest) = e.
+Proof.
+  intros. unfold nlen. rewrite Nat2N.id. rewrite firstn_app, Nat.sub_diag, firstn_all. cbn [firstn]. apply app_nil_r.
+Qed.
+Lemma skipn_nlen_app : forall (e rest : list byte), skipn (N.to_nat (nlen e)) (e ++ rest) = rest.
+Proof.
+  intros. unfold nlen. rewrite Nat2N.id. rewrite skipn_app, Nat.sub_diag, skipn_all. reflexivity.
+Qed.
+
+Lemma rd_split_app : forall o e rest,
+  rd_split (nlen e) (mkrd o (e ++ rest)) = Ok (mkrd o e, mkrd (o + nlen e) rest).
+Proof.
+  intros. unfold rd_split. cbn [win off]. rewrite nlen_app.
+  destruct (nlen e + nlen rest <? nlen e) eqn:E; [lia|].
+  rewrite firstn_nlen_app, skipn_nlen_app. reflexivity.
+Qed.
+
+Lemma rd_skip_app : forall o e rest,
+  rd_skip (nlen e) (mkrd o (e ++ rest)) = Ok (mkrd (o + nlen e) rest).
+Proof.
+  intros. unfold rd_skip. cbn [win off]. rewrite nlen_app.
+  destruct (nlen e + nlen rest <? nlen e) eqn:E; [lia|].
+  rewrite skipn_nlen_app. reflexivity.
+Qed.
+
+Lemma rd_u8_cons : forall o b rest, rd_u8 (mkrd o (b :: rest)) = Ok (b2n b, mkrd (o + 1) rest).
+Proof.
+  intros. unfold rd_u8. change (b :: rest) with ([b] ++ rest). rewrite (lift_app _ _ _ _ _ (b2n b)); reflexivity.
+Qed.
+
+(* ------------------------------------------------------------------ sized arithmetic *)
+Definition asz_ok (asz : N) : Prop := asz = 1 \/ asz = 2 \/ asz = 4 \/ asz = 8.
+
+Lemma ones_sized_ok : forall dbg asz, asz_ok asz -> ones_sized dbg asz = Ok (N.ones (8 * asz)).
+Proof. intros dbg asz [->|[->|[->| ->]]]; destruct dbg; vm_compute; reflexivity. Qed.
+
+Lemma wadd_sized_ok : forall dbg a len asz, asz_ok asz ->
+  wadd_sized dbg a len asz = Ok ((a + len) mod 2 ^ (8 * asz)).
+Proof.
+  intros dbg a len asz H. unfold wadd_sized. rewrite ones_sized_ok by exact H. cbn [bind].
+  rewrite N.land_ones. unfold wrap64. change two64 with (2 ^ 64).
+  f_equal.
+  assert (Hd : 2 ^ 64 = 2 ^ (8 * asz) * 2 ^ (64 - 8 * asz)).
+  { rewrite <- N.pow_add_r. f_equal. destruct H as [->|[->|[->| ->]]]; reflexivity. }
+  rewrite Hd. rewrite N.mod_mul_r by (apply N.pow_nonzero; lia).
+  rewrite (N.mul_comm (2 ^ (8 * asz)) (_ mod _)), N.mod_add by (apply N.pow_nonzero; lia).
+  apply N.mod_mod. apply N.pow_nonzero. lia.
+Qed.
+
+Lemma read_address_ok : forall asz be bs, asz_ok asz -> read_address asz be bs = read_un (N.to_nat asz) be bs.
+Proof. intros asz be bs [->|[->|[->| ->]]]; reflexivity. Qed.
+
+Lemma of_i64_s64 : forall v, v < 2 ^ 64 -> of_i64 (s64 v) = v.
+Proof.
+  intros v Hv. unfold of_i64, of_signed, s64.
+  assert (H6364 : 2 ^ 64 = 2 * 2 ^ 63) by reflexivity.
+  change (Z.of_N (2 ^ 64)) with (2 ^ 64)%Z.
+  assert (Hz : (2 ^ 64 = 2 * Z.of_N (2 ^ 63))%Z) by reflexivity.
+  destruct (v <? 2 ^ 63) eqn:E.
+  - rewrite Z.mod_small by lia. lia.
+  - replace (Z.of_N v - 2 ^ 64)%Z with (Z.of_N v + (-1) * 2 ^ 64)%Z by lia.
+    rewrite Z.mod_add by lia. rewrite Z.mod_small by lia. lia.
+Qed.
+
+Lemma s64_range : forall v, v < 2 ^ 64 -> (- 2 ^ 63 <= s64 v < 2 ^ 63)%Z.
+Proof.
+  intros v Hv. unfold s64.
+  assert (Hz : (2 ^ 64 = 2 * 2 ^ 63)%Z) by reflexivity.
+  assert (Hz2 : Z.of_N (2 ^ 64) = (2 ^ 64)%Z) by reflexivity.
+  assert (Hz3 : Z.of_N (2 ^ 63) = (2 ^ 63)%Z) by reflexivity.
+  destruct (v <? 2 ^ 63) eqn:E; lia.
+Qed.
+
+(* sign extension of a k-byte two's complement field back to the u64 it came from *)
+Lemma of_i64_to_signed : forall bits v, (bits = 16 \/ bits = 32 \/ bits = 64) -> v < 2 ^ 64 ->
+  (v < 2 ^ (bits - 1) \/ 2 ^ 64 - 2 ^ (bits - 1) <= v) ->
+  of_i64 (to_signed bits (v mod 2 ^ bits)) = v.
+Proof.
+  intros bits v Hb Hv Hfit. unfold of_i64, of_signed, to_signed, wrapN.
+  rewrite N.mod_mod by (apply N.pow_nonzero; lia).
+  assert (Hz64 : Z.of_N (2 ^ 64) = (2 ^ 64)%Z) by reflexivity. rewrite Hz64.
+  destruct Hb as [->|[->| ->]].
+  - change (2 ^ (16 - 1)) with 32768 in *. change (2 ^ 16) with 65536.
+    change (2 ^ 64) with 18446744073709551616 in *. change (2 ^ 64)%Z with 18446744073709551616%Z.
+    change (Z.of_N 65536) with 65536%Z.
+    destruct (v mod 65536 <? 32768) eqn:E; lia.
+  - change (2 ^ (32 - 1)) with 2147483648 in *. change (2 ^ 32) with 4294967296.
+    change (2 ^ 64) with 18446744073709551616 in *. change (2 ^ 64)%Z with 18446744073709551616%Z.
+    change (Z.of_N 4294967296) with 4294967296%Z.
+    destruct (v mod 4294967296 <? 2147483648) eqn:E; lia.
+  - change (2 ^ (64 - 1)) with 9223372036854775808 in *.
+    change (2 ^ 64) with 18446744073709551616 in *. change (2 ^ 64)%Z with 18446744073709551616%Z.
+    change (Z.of_N 18446744073709551616) with 18446744073709551616%Z.
+    destruct (v mod 18446744073709551616 <? 9223372036854775808) eqn:E; lia.
+Qed.
+
+(* ------------------------------------------------------------------ DW_EH_PE bytes (finite sweeps) *)
+Definition all256 : list N := map N.of_nat (seq 0 256).
+
+Lemma in_all256 e : e < 256 -> In e all256.
+Proof.
+  intros H. unfold all256. apply in_map_iff. exists (N.to_nat e). split.
+  - apply N2Nat.id.
+  - apply in_seq. lia.
+Qed.
+
+Lemma sweep256 (P : N -> bool) : forallb P all256 = true -> forall e, e < 256 -> P e = true.
+Proof. intros H e He. rewrite forallb_forall in H. apply H, in_all256, He. Qed.
+
+Lemma pe_valid_all_lem_base : forall e, e < 256 -> pe_is_valid e = valid_spec e.
+Proof.
+  intros e He.
+  apply (sweep256 (fun e => Bool.eqb (pe_is_valid e) (valid_spec e))) in He.
+  - now apply eqb_prop.
+  - vm_compute. reflexivity.
+Qed.
+
+Lemma pe_decomp_base : forall e, e < 256 ->
+  pe_format e = fmt_of e /\ pe_application e = app_of e /\
+  pe_is_indirect e = negb (ind_of e =? 0) /\ pe_is_absent e = (e =? 255) /\
+  e = fmt_of e + app_of e + ind_of e.
+Proof.
+  intros e He.
+  apply (sweep256 (fun e => (pe_format e =? fmt_of e) && (pe_application e =? app_of e)
+            && Bool.eqb (pe_is_indirect e) (negb (ind_of e =? 0))
+            && Bool.eqb (pe_is_absent e) (e =? 255)
+            && (e =? fmt_of e + app_of e + ind_of e))) in He.
+  - repeat rewrite andb_true_iff in He. destruct He as [[[[H1 H2] H3] H4] H5].
+    apply N.eqb_eq in H1, H2, H5. apply eqb_prop in H3, H4. auto.
+  - vm_compute. reflexivity.
+Qed.
